@@ -5,6 +5,38 @@ use std::collections::BTreeMap;
 use std::sync::atomic::{AtomicU64, Ordering};
 use std::time::{Duration, Instant};
 
+// ---- panics of the library under exploration that escape an engine's own catch_unwind ------------------------------
+thread_local! { static LAST_PANIC_LOC: std::cell::RefCell<Option<String>> = const { std::cell::RefCell::new(None) }; }
+static PAR_CALL: AtomicU64 = AtomicU64::new(0);
+static ONLY: std::sync::OnceLock<(u64, u64)> = std::sync::OnceLock::new();
+
+/// Panic hook: remembers where the panic was raised (file:line), prints nothing unless VERIF_DEBUG_PANIC is set.
+pub fn install_panic_hook() {
+    let verbose = std::env::var("VERIF_DEBUG_PANIC").is_ok();
+    let default = std::panic::take_hook();
+    std::panic::set_hook(Box::new(move |info| {
+        let loc = info.location().map(|l| format!("{}:{}", l.file(), l.line()));
+        LAST_PANIC_LOC.with(|c| *c.borrow_mut() = loc);
+        if verbose { default(info); }
+    }));
+}
+fn panic_text(e: Box<dyn std::any::Any + Send>) -> String {
+    if let Some(s) = e.downcast_ref::<&str>() { s.to_string() } else if let Some(s) = e.downcast_ref::<String>() { s.clone() } else { "<non-string panic>".into() }
+}
+/// Runs one index of a parallel range. A panic raised inside the library's own sources (path contains "/repo/" or the
+/// crate's src/ tree) that no check anticipated is a verdict about the library - recorded as a violation replayable by
+/// (call, index); a panic raised in harness code is a machinery error.
+fn guarded<F: Fn(u64, &mut Report)>(f: &F, call: u64, i: u64, r: &mut Report) {
+    if let Err(e) = std::panic::catch_unwind(std::panic::AssertUnwindSafe(|| f(i, r))) {
+        let msg = panic_text(e);
+        let loc = LAST_PANIC_LOC.with(|c| c.borrow_mut().take()).unwrap_or_default();
+        let in_library = loc.contains("/repo/") || loc.starts_with("core/src/") || loc.starts_with("geom/src/");
+        if !in_library { eprintln!("MACHINERY-ERROR worker panicked in harness code at {loc}: {msg}"); std::process::exit(2); }
+        let site = loc.rsplit("/repo/").next().unwrap_or(&loc).to_string();
+        r.violation(format!("library-panic|{site}|call{call}|index{i}"), format!("the library panicked at {site} where no check anticipated a panic: {msg}"), obj! {"kind" => "par-index", "call" => call, "i" => i, "loc" => site.as_str()});
+    }
+}
+
 #[derive(Clone, Debug)]
 pub struct Viol {
     /// clause + canonical input; identifies the finding (matched by known_findings patterns)
@@ -177,6 +209,12 @@ impl Report {
     /// Write the evidence part and the replay files; print a summary line.
     /// `level` is "exploration" or "model_checking".
     pub fn finish(self, cfg: &Cfg, level: &str, rule: &str, assumptions: &[&str]) -> ! {
+        if cfg.replay.is_some() {
+            // (call, index) replay: only the selected index ran
+            if self.viols.is_empty() { println!("REPLAY property={} result=holds", cfg.prop); std::process::exit(0); }
+            for v in self.viols.values() { println!("REPLAY property={} result=violates key={} what={}", cfg.prop, v.key, v.what); }
+            std::process::exit(1);
+        }
         let wall = cfg.start.elapsed().as_secs_f64();
         let rdir = format!("{}/replays/{}", cfg.out_dir, cfg.prop);
         let _ = std::fs::create_dir_all(&rdir);
@@ -253,6 +291,13 @@ pub fn par_range<F>(cfg: &Cfg, n: u64, f: F) -> Report
 where
     F: Fn(u64, &mut Report) + Sync,
 {
+    let call = PAR_CALL.fetch_add(1, Ordering::SeqCst);
+    if let Some(&(oc, oi)) = ONLY.get() {
+        // replay of a (call, index) case: every other parallel range is skipped
+        let mut r = Report::new();
+        if oc == call && oi < n { guarded(&f, call, oi, &mut r); }
+        return r;
+    }
     let threads = cfg.threads().max(1);
     let chunk = (n / (threads as u64 * 64)).clamp(1, 1 << 16);
     let next = AtomicU64::new(0);
@@ -268,7 +313,7 @@ where
                         let st = next.fetch_add(chunk, Ordering::Relaxed);
                         if st >= n { break; }
                         let en = (st + chunk).min(n);
-                        for i in st..en { f(i, &mut r); }
+                        for i in st..en { guarded(&f, call, i, &mut r); }
                         done.fetch_add(en - st, Ordering::Relaxed);
                     }
                     r
@@ -300,8 +345,15 @@ pub fn load_replay(path: &str) -> J {
 
 /// Standard tail of a `--replay` run: run the case twice, demand identical
 /// observation, print it, exit 1 if it (still) violates.
-pub fn replay_main(cfg: &Cfg, run: impl Fn(&J, &mut Report)) -> ! {
+pub fn replay_main(cfg: &Cfg, run: impl Fn(&J, &mut Report)) {
     let case = load_replay(cfg.replay.as_ref().unwrap());
+    if case.get("kind").and_then(|j| j.as_str()) == Some("par-index") {
+        // an unanticipated library panic recorded by (parallel call, index): re-run the engine with only that index enabled;
+        // Report::finish prints the verdict
+        let g = |k: &str| case.get(k).and_then(|j| j.as_u64()).unwrap_or(u64::MAX);
+        let _ = ONLY.set((g("call"), g("i")));
+        return;
+    }
     let mut r1 = Report::new();
     run(&case, &mut r1);
     let mut r2 = Report::new();
